@@ -1261,7 +1261,12 @@ class _CF:
         if c < 0.915 and d > 0:
             self.nvar += 1
             x = f"x{self.nvar}"
-            kind = r.choice(["ifset", "matchtype"])
+            kind = r.choice(["ifset", "matchtype", "matchmixed"])
+            if kind == "matchmixed":
+                # a value arm and a type arm in random order: the FIRST covering arm, top to bottom, wins
+                return (kind, x, self.expr(1, vars_, cells), self.block(d - 1, vars_ + [x], cells, in_loop, 1),
+                        self.block(d - 1, vars_, cells, in_loop, 1), r.choice([0, 2, 4]),
+                        self.block(d - 1, vars_, cells, in_loop, 1), r.random() < 0.5)
             return (kind, x, self.expr(1, vars_, cells), self.block(d - 1, vars_ + [x], cells, in_loop, 1),
                     self.block(d - 1, vars_, cells, in_loop, 1))
         if c < 0.93 and d > 0 and top and not self.in_fn and not in_loop:
@@ -1345,6 +1350,11 @@ class _CF:
             return f"if {st[1]}: int = pick({self.rex(st[2])}) {self.rblock(st[3])} else {self.rblock(st[4])}"
         if k == "matchtype":
             return f"match pick({self.rex(st[2])}) {{ {st[1]}: int => {self.rblock(st[3])}, => {self.rblock(st[4])}, }}"
+        if k == "matchmixed":
+            ta = f"{st[1]}: int => {self.rblock(st[3])},"
+            va = f"({st[5]}) => {self.rblock(st[6])},"
+            arms = f"{va} {ta}" if st[7] else f"{ta} {va}"
+            return f"match pick({self.rex(st[2])}) {{ {arms} => {self.rblock(st[4])}, }}"
         if k == "defn":
             return f"{st[1]} := (p: int) -> int {{ " + "; ".join(self.rstmt(x) for x in st[2]) + f"; return {self.rex(st[3])} }}"
         if k == "mod":
@@ -1464,6 +1474,18 @@ class _CF:
         elif k in ("ifset", "matchtype"):
             v = self.ev(st[2], env, heap)
             if v % 2 == 0:                      # pick(k) is the int k for even k, the float 0.5 otherwise
+                benv = dict(env)
+                benv[st[1]] = v
+                self.run_block(st[3], benv, heap)
+            else:
+                self.run_block(st[4], env, heap)
+        elif k == "matchmixed":
+            v = self.ev(st[2], env, heap)
+            is_int = v % 2 == 0
+            value_hit = is_int and v == st[5]
+            if st[7] and value_hit:            # value arm written first
+                self.run_block(st[6], env, heap)
+            elif is_int:                        # type arm (also when the value arm comes second: it is shadowed)
                 benv = dict(env)
                 benv[st[1]] = v
                 self.run_block(st[3], benv, heap)
